@@ -393,7 +393,7 @@ def p_c04(facts, rep, tier):
 
     rep.explanation = (
         "C04 (fsync obligations): for wal, ln and bbn every write/resize that can precede Meta::write is complete before a result-checked fsync of "
-        "that file starts, and that fsync lies on every success path to Meta::write (O2); Meta::write syncs the meta page (O4); hash-table page "
+        "that file starts, and that fsync lies on every success path to Meta::write (O2); Meta::write syncs the meta page (O4) and everything destructive (hash-table writeout, WAL truncation, rollback-log pruning) starts only after it returned Ok (O3); hash-table page "
         "writes are drained and the file fsynced before the WAL is truncated, in post_meta (O5) and in recovery (O6); a rollback record is "
         "written and fsynced, and a newly created segment followed by a directory fsync, before commit returns Ok (O9); pruning orders unlink -> "
         "dir fsync -> head truncation -> fsync (O10); store creation syncs every file and the directory (O11). Removing any of these fsyncs makes "
@@ -406,6 +406,10 @@ def p_c04(facts, rep, tier):
     n9 = syncorder.o9(ctx, rep)
     n10 = syncorder.o10(ctx, rep)
     n11 = syncorder.o11(ctx, rep)
+    # "nothing the old state depends on is discarded before the switch-over is durable": the destructive post-meta operations
+    # (hash-table writeout, WAL truncation, rollback-log unlink / truncation) start only after Meta::write - which fsyncs
+    # (O4) - has returned Ok
+    syncorder.o3(ctx, rep)
     rep.floor("O2 pre-meta writes", n2, 4)
     rep.floor("O5/O6 truncate_wal barriers examined", n56, 3)
     rep.floor("O9 rollback append obligations", n9, 3)
